@@ -55,6 +55,23 @@ def e2e(ctx):
             # overtaken by later instructions and must be abandoned when their operation is cancelled)
             scripts.append({"id": "e%d" % k, "peers": ["p1", "p2", "p3"], "cids": ["c1", "c2", "c3"], "acts": acts,
                             "slow": 150 if k % 3 == 1 else 0})
+    # directed behaviours of Cluster.tla for the overtaking cases (every API-level sequence is a behaviour of the
+    # module): an instruction arrives while the previous pin/add of the same CID is still in flight at slow daemons
+    def P(at, c, rmin, rmax, mode="rec"):
+        return {"name": "Pin", "at": at, "cid": c, "mode": mode, "rmin": rmin, "rmax": rmax}
+    def U(at, c):
+        return {"name": "Unpin", "at": at, "cid": c}
+    directed = [
+        [P("p1", "c1", -1, -1), U("p2", "c1")],
+        [P("p1", "c1", -1, -1), U("p2", "c1"), P("p3", "c1", -1, -1)],
+        [P("p1", "c1", -1, -1), U("p1", "c1"), P("p1", "c2", 2, 3), U("p2", "c2")],
+        [P("p1", "c1", 2, 3), P("p2", "c1", 1, 1), U("p3", "c1")],
+        [P("p2", "c3", -1, -1), U("p2", "c3"), P("p2", "c3", 1, 2), U("p1", "c3"), P("p1", "c3", -1, -1)],
+    ]
+    for k, acts in enumerate(directed):
+        for slow in (120, 400):
+            scripts.append({"id": "d%d-%d" % (k, slow), "peers": ["p1", "p2", "p3"], "cids": ["c1", "c2", "c3"],
+                            "acts": acts, "slow": slow})
     inp = os.path.join(ctx.work, "e2e_scripts.ndjson")
     with open(inp, "w") as f:
         for sc in scripts:
